@@ -80,6 +80,14 @@ HEADER = ("From Coq Require Import List Arith Bool ZArith QArith Qabs.\n"
           "Definition fastQ (d : nat) U1 UI a b i : Q := if Nat.eqb d 2 then fast_2d QNum U1 UI a b i else fast_3d QNum U1 UI a b i.\n")
 
 
+def _same_or_nan_pair(x, y):
+    if math.isnan(x) or math.isnan(y):
+        return math.isnan(x) and math.isnan(y)
+    if math.isinf(x) or math.isinf(y):
+        return x == y
+    return close(x, y, max(1e-3, abs(x)))
+
+
 def close(x, y, scale=1.0):
     return abs(x - y) <= TOL_ABS + TOL_REL * max(abs(x), abs(y), scale)
 
@@ -162,7 +170,7 @@ def correspond(res):
                         viol("fast path and _mass_nd differ (exact dyadic model)", kind="fast_vs_nd", fast=vf, nd=vn, **desc)
                     if vf < 0:
                         viol("negative rectangle mass", kind="nonneg", fast=vf, **desc)
-                    if cop[0] == "indep" and not all(x <= 0 <= y for x, y in zip(aa, bb)):
+                    if cop[0] == "indep":
                         _indep_truth(res, model, list(range(dim)) if ind is None else ind, aa, bb, vf, desc, [False] * dim, exact=True, viol=viol)
                     cases.append(f"({elist(aa)}, {elist(bb)}, {idxlit(ind)}, {qlit(vf)}, {qlit(vn)})")
                 # IEEE negative zero as an end point (e.g. from -np.array([0.0, b])): same rectangle, must give the same mass as +0.0;
@@ -253,13 +261,18 @@ def correspond(res):
                 res.bump("straddling_coordinates", sum(1 for x, y in zip(aa, bb) if x < 0 <= y))
                 desc = dict(a=list(aa), b=list(bb), indices=ind, **desc0)
                 touches = [x <= 0 <= y for x, y in zip(aa, bb)]       # the CLOSED interval contains 0
-                if all(touches):
-                    # origin in the closure of the rectangle.  With finite tail integrals everything is still finite and is
-                    # checked below; with U_i(0) = +inf (infinite activity) the true mass may be +inf and the formula evaluates
-                    # inf - inf: outside the property ("rectangle not containing the origin"), only counted.
-                    if zero_on_inf_act:
-                        res.bump("out_of_scope_origin_in_closure", "inf" if vf == INF else ("nan" if math.isnan(vf) else "finite"))
-                        continue
+                if cop[0] == "indep":
+                    # the true mass is known (axis measure), +inf included: judged on every rectangle not containing the origin
+                    _indep_truth(res, model, idxs, aa, bb, vf, desc, infinite_activity, exact=False, viol=viol)
+                    if not _same_or_nan_pair(vf, vn):
+                        viol("fast path and _mass_nd differ", kind="fast_vs_nd", fast=vf, nd=vn, **desc)
+                if all(touches) and zero_on_inf_act:
+                    # every coordinate touches 0 and some U_i(0) = +inf: the mass may be +inf and the formula evaluates inf - inf.
+                    # Dependent / Clayton: no independent truth here; a finite NEGATIVE value is still a violation.
+                    res.bump("origin_in_closure_infinite_tail", "inf" if vf == INF else ("nan" if math.isnan(vf) else "finite"))
+                    if math.isfinite(vf) and vf < -TOL_ABS:
+                        viol("negative rectangle mass", kind="nonneg", fast=vf, **desc)
+                    continue
                 elif zero_on_inf_act:
                     res.bump("in_scope_zero_end_point_on_infinite_activity_margin", 1)
                 with np.errstate(all="ignore"):
@@ -272,8 +285,6 @@ def correspond(res):
                     viol("fast path and _mass_nd differ", kind="fast_vs_nd", fast=vf, nd=vn, **desc)
                 if vf < -(TOL_ABS + TOL_REL * scale):
                     viol("negative rectangle mass", kind="nonneg", fast=vf, **desc)
-                if cop[0] == "indep" and not all(touches):
-                    _indep_truth(res, model, idxs, aa, bb, vf, desc, infinite_activity, exact=False, viol=viol)
                 # table of the tail integrals the two formulas may read
                 if n_tab < (25 if tier == "quick" else 120) and (ind is None or len(ind) >= 2):
                     tab = _tail_table(model, idxs, aa, bb)
@@ -293,6 +304,7 @@ def correspond(res):
     if tier == "thorough":
         _density_oracle(res, viol)
     _negative_zero_oracle(res, rng, viol)
+    _integer_endpoints_oracle(res, viol)
     _end_to_end(res, rng, viol)
 
     # ================= Coq side ================================================================================
@@ -305,39 +317,90 @@ def correspond(res):
             res.case_ok += 1
 
 
+INF_ACT = ("cgmy", "cgmy2", "vg")
+
+
+def _nu_punctured(model, idx, x, y):
+    """nu_idx((x, y] minus {0}) for x <= y: +inf when the interval touches 0 on an infinite-activity margin"""
+    nu = model.models[idx].levy_triplet.nu
+    with np.errstate(all="ignore"):
+        if x < 0 < y or x == 0 or y == 0:
+            lo = float(nu.integrate(x, 0.0)) if x < 0 else 0.0
+            hi = float(nu.integrate(0.0, y)) if y > 0 else 0.0
+            return lo + hi
+        return float(nu.integrate(x, y))
+
+
+def indep_axis_mass(model, idxs, a, b, contains0):
+    """mass of the rectangle prod (a_k, b_k] under INDEPENDENT components: the Levy measure sits on the axes, so
+         mass = sum_k [0 in I_j for every j != k] * nu_k(I_k minus {0}).
+    `contains0(j, a_j, b_j)` says whether 0 is a point of the j-th interval: the TRUE convention is a_j < 0 <= b_j."""
+    n = len(a)
+    c = [contains0(j, a[j], b[j]) for j in range(n)]
+    tot = 0.0
+    for k in range(n):
+        if all(c[j] for j in range(n) if j != k):
+            tot += _nu_punctured(model, idxs[k], a[k], b[k])
+    return tot
+
+
+def indep_truth_and_prediction(model, margins, idxs, a, b):
+    """(true mass, mass predicted by the recorded defect F-C12-3).  F-C12-3: on an infinite-activity margin U_i(0) = +inf stands for
+    the whole closed half-line, so PER COORDINATE and PER SIDE the end point 0 flips: (0, b_i] behaves as [0, b_i] (contains 0) and
+    (a_i, 0] behaves as (a_i, 0) (does not); finite-activity coordinates keep the true convention."""
+    true_c = lambda j, x, y: x < 0 <= y
+    inf_act = [margins[idxs[j]][0] in INF_ACT for j in range(len(a))]
+    shifted = lambda j, x, y: (x <= 0 < y) if inf_act[j] else (x < 0 <= y)
+    return indep_axis_mass(model, idxs, a, b, true_c), indep_axis_mass(model, idxs, a, b, shifted)
+
+
+def _same(x, y, exact=False):
+    if math.isinf(x) or math.isinf(y):
+        return x == y
+    return (x == y) if exact else close(x, y, max(1e-3, abs(y)))
+
+
 def _indep_truth(res, model, idxs, a, b, got, desc, infinite_activity, exact, viol):
-    """independent components never jump together: the Levy measure sits on the axes.  For a rectangle (a, b] with at least one
-    coordinate interval away from 0:  mass = nu_k((a_k, b_k]) if k is the ONLY such coordinate and every other interval contains
-    0 as a point of the half-open interval (a_j < 0 <= b_j);  0 otherwise."""
-    away = [k for k, (x, y) in enumerate(zip(a, b)) if not (x <= 0 <= y)]
-    truth, marg = 0.0, None
-    if len(away) == 1:
-        k = away[0]
-        with np.errstate(all="ignore"):
-            marg = float(model.models[idxs[k]].levy_triplet.nu.integrate(a[k], b[k]))
-        if all(x < 0 <= y for j, (x, y) in enumerate(zip(a, b)) if j != k):
-            truth = marg
+    """independent copula: judge EVERY rectangle that does not contain the origin as a point (not all a_j < 0 <= b_j) against its true
+    mass, +inf included (an axis segment next to 0 of an infinite-activity margin); nan is never the true value."""
+    truth, pred = indep_truth_and_prediction(model, desc["margins"], idxs, a, b)
     res.count(("indep-truth", str(desc.get("margins")), tuple(a), tuple(b), tuple(idxs)), kind="independent copula: true mass")
-    ok = (got == truth) if exact else close(got, truth, max(1e-3, abs(truth)))
-    if not ok:
-        zero_inf = any((x == 0 or y == 0) and infinite_activity[idxs[j]] for j, (x, y) in enumerate(zip(a, b)))
-        viol("independent copula: rectangle mass differs from the true mass (measure concentrated on the axes)"
-             + (" -- end point 0 on an infinite-activity margin" if zero_inf else ""), kind="indep_truth",
-             finding="F-C12-3" if zero_inf else None, expected=truth, got=got, marginal_mass=marg, zero_on_infinite_activity=zero_inf, **desc)
+    res.bump("independent_true_mass", "inf" if truth == INF else ("zero" if truth == 0 else "finite"))
+    if not math.isnan(got) and _same(got, truth, exact):
+        return
+    tagged = truth != pred and (((math.isnan(got) or got == INF) and pred == INF) or (math.isfinite(pred) and not math.isnan(got) and _same(got, pred, exact)))
+    nan_for_inf = math.isnan(got) and truth == INF and pred == INF
+    viol("independent copula: rectangle mass differs from the true mass (measure concentrated on the axes)"
+         + (" -- end point 0 on an infinite-activity margin" if tagged else "") + (" -- nan where the mass is +inf" if nan_for_inf else ""),
+         kind="indep_truth", finding="F-C12-3" if tagged else ("F-C12-4" if nan_for_inf else None), expected=truth, got=got,
+         predicted_by_F_C12_3=pred, **desc)
 
 
 def matches_known(v, known):
-    """F-C12-3 absorbs ONLY: independent copula, an end point exactly 0 on an infinite-activity margin (U_i(0) = +inf: the half-line
-    (0, inf) then carries the axis mass), where the implementation moves the axis mass nu_k(S) from the piece (a_i, 0] x S (true mass
-    nu_k(S), returned 0) to the piece (0, b_i] x S (true mass 0, returned nu_k(S)).  Every other mismatch with the true mass is new."""
+    """F-C12-3 absorbs ONLY what the recorded defect predicts, recomputed here from the replayed input (not from a flag): independent
+    copula; the true axis mass and the mass under the per-coordinate / per-side flipped convention at end points 0 of infinite-activity
+    margins differ; and the implementation returned exactly the flipped-convention value (finite: to 1e-9; +inf: inf or the nan of
+    inf - inf).  Anything else -- a finite-activity coordinate returning a margin, another magnitude, another copula -- is new."""
     r = v["replay"]
-    if known.get("id") != "F-C12-3" or r.get("kind") != "indep_truth" or r.get("copula") != ["indep"]:
+    if known.get("id") not in ("F-C12-3", "F-C12-4") or r.get("kind") != "indep_truth" or r.get("copula") != ["indep"]:
         return False
-    if not r.get("zero_on_infinite_activity") or r.get("marginal_mass") is None:
+    try:
+        model = CM.make_model(r["margins"], r["copula"])
+        a, b = tuple(float(x) for x in r["a"]), tuple(float(x) for x in r["b"])
+        idxs = list(range(len(r["margins"]))) if r.get("indices") is None else list(r["indices"])
+        truth, pred = indep_truth_and_prediction(model, r["margins"], idxs, a, b)
+        got = float(r["got"])
+    except Exception:
         return False
-    got, exp, marg = float(r["got"]), float(r["expected"]), float(r["marginal_mass"])
-    tol = max(1e-3, abs(marg))
-    return (exp == 0.0 and close(got, marg, tol)) or (got == 0.0 and close(exp, marg, tol))
+    if known.get("id") == "F-C12-4":
+        # nan (inf - inf) where the true mass AND the flipped-convention mass are +inf: an axis segment next to 0 of an
+        # infinite-activity margin lies in the rectangle
+        return math.isnan(got) and truth == INF and pred == INF
+    if truth == pred:
+        return False
+    if pred == INF:
+        return math.isnan(got) or got == INF
+    return not math.isnan(got) and _same(got, pred)
 
 
 def _tail_table(model, idxs, a, b):
@@ -442,6 +505,33 @@ def _inverse_oracle(res, model, desc0, dim, viol):
             if not close(y2, y, abs(y)) and abs(y2 - y) > 1e-7 * abs(y):
                 viol("inverse_tail_integral does not invert the marginal tail integral", kind="inverse", coordinate=i, x=x, tail=y, inverse=back,
                      tail_of_inverse=y2, **desc0)
+
+
+def _integer_endpoints_oracle(res, viol):
+    """D14: integer / numpy-integer end points are the same rectangle as their float value: same mass on a FRESH model (nothing cached)
+    and on a WARM one (after the float call; the lru cache keys -1 and -1.0 alike), for the fast paths, _mass_nd and sub-families."""
+    configs = [(2, [["hem"], ["merton"]], ["clayton", 0.7, 0.3]), (2, [["merton2"], ["hem"]], ["indep"]), (3, [["hem"], ["merton"], ["hem2"]], ["dep"])]
+    for dim, margins, cop in configs:
+        desc0 = dict(margins=margins, copula=cop)
+        a = tuple([-1.0, 1.0, -2.0][:dim]); b = tuple([-0.05, 2.0, 1.0][:dim])
+        for conv, tag in ((int, "int"), (np.int64, "np.int64")):
+            ia = tuple(conv(x) if float(x).is_integer() else x for x in a); ib = tuple(conv(x) if float(x).is_integer() else x for x in b)
+            for fn in ("fast", "nd"):
+                ref = call_mass(CM.make_model(margins, cop), fn, a, b, None)
+                out = {}
+                for order in ("fresh", "warm"):
+                    m = CM.make_model(margins, cop)
+                    try:
+                        if order == "warm":
+                            call_mass(m, fn, a, b, None)
+                        f = {"fast": m.mass, "nd": m._mass_nd}[fn]
+                        out[order] = float(f(ia, ib))
+                    except Exception as e:  # noqa
+                        out[order] = f"{type(e).__name__}: {e}"
+                res.count(("int-endpoints", dim, str(cop), tag, fn), kind="integer end points")
+                if any(v != ref for v in out.values()):
+                    viol("integer end points: the mass differs from the float rectangle / raises / depends on the call history", kind="int_endpoints",
+                         a=[float(x) for x in a], b=[float(x) for x in b], endpoint_type=tag, function=fn, with_float=ref, with_integers=out, **desc0)
 
 
 def _negative_zero_oracle(res, rng, viol):
